@@ -136,6 +136,31 @@ def run(case, ctx):
             fails.append(fail("encode_fails_on_tokenise_output", str(e)))
         except Exception as e:
             fails.append(fail(f"tokenise_raises.{type(e).__name__}", str(e)[:200]))
+    # closure on DERIVED inputs, as users produce them: the piece after an octave-wrapping transposition, and the detokenised
+    # output fed in again.  Such an input may legitimately be rejected (a wrapped pitch can leave this configuration's pitch
+    # range); what it must never do is get accepted and come out as tokens the vocabulary does not have.
+    from scoda.exceptions.tokenisation_exception import TokenisationException
+    for k, pc in enumerate(case["pieces"]):
+        if pc is None:
+            continue
+        for how in ("transposed", "detokenised"):
+            try:
+                seqs = [gen.build_seq(t) for t in pc["tracks"]]
+                if how == "transposed":
+                    iv = [55, -55, 70, -70][(k + len(pc["tracks"])) % 4]
+                    for q in seqs:
+                        q.transpose(iv)
+                else:
+                    seqs = tok.detokenise(tok.tokenise(seqs))
+                toks = tok.tokenise(seqs)
+                LOG.n("c02.derived_input_tokenised." + how)
+                tok.encode(toks)
+            except KeyError as e:
+                fails.append(fail("encode_fails_on_tokenise_output", {"input": how, "token": str(e)}))
+            except TokenisationException:
+                LOG.n("c02.derived_input_rejected." + how)
+            except Exception as e:
+                fails.append(fail(f"tokenise_raises.{type(e).__name__}", {"input": how, "msg": str(e)[:200]}))
     sib = case.get("sibling")
     if sib:
         LOG.n("c02.sibling_configurations")
